@@ -5,7 +5,7 @@
 From Coq Require Import List Arith NArith Bool Lia.
 From Verif Require Import lib.Quote lib.RegexLM proofs.QuoteProofs model.CqlSyntax gen.GrammarCQL
   model.CqlPrinter model.CqlParser proofs.CqlQuoteProofs proofs.CqlRegexProofs proofs.CqlLexProofs
-  proofs.CqlLexPrintProofs proofs.CqlParserProofs.
+  proofs.CqlLexPrintProofs proofs.CqlParserProofs proofs.CqlRoundTripProofs.
 Import ListNotations.
 Close Scope N_scope.
 
@@ -234,3 +234,52 @@ Example truncation_breaks_quoting :
            (PROPERTY, [105; 100]%N); (COMPARATOR, [61%N]); (PROPERTY, [49%N]); (PROPERTY, [120; 120; 120]%N)]
   /\ cql_lex (tpl1 ++ quote_value p v) = LexOk [(PROPERTY, [110; 97; 109; 101]%N); (COMPARATOR, [61%N]); (STRING, quote_value p v)].
 Proof. split; vm_compute; reflexivity. Qed.
+
+(* ---- the two steps around the parser ------------------------------------------------------------------------------ *)
+
+(* before the lexer: a text that contains a double quote is never taken for a phone number, so ParseQuery's
+   preprocessing only trims it — in particular every template instance with an escaped value *)
+Lemma in_trim_left c s : In c s -> is_space c = false -> In c (trim_left s).
+Proof.
+  induction s as [|x s IH]; intros H Hc; [contradiction|]. cbn [trim_left].
+  destruct (is_space x) eqn:E; [|exact H]. destruct H as [->|H]; [congruence|auto].
+Qed.
+
+Lemma in_trim c s : In c s -> is_space c = false -> In c (trim s).
+Proof.
+  intros H Hc. unfold trim. apply in_rev. rewrite rev_involutive. apply in_trim_left; [|exact Hc].
+  apply in_rev. rewrite rev_involutive. apply in_trim_left; assumption.
+Qed.
+
+Lemma only_phone_nonphone c t : In c t -> phone_char c = false -> c <> 43%N -> only_phone t = false.
+Proof.
+  intros H Hc H43. apply in_split in H. destruct H as (a & b & ->).
+  destruct a as [|x a]; [|apply only_phone_false; [discriminate|exact Hc]].
+  cbn [app]. unfold only_phone. replace (N.eqb c 43) with false by (symmetry; apply N.eqb_neq; exact H43).
+  cbn [forallb]. rewrite Hc. reflexivity.
+Qed.
+
+Theorem preprocess_quoted : forall e s, In 34%N s -> preprocess e s = trim s.
+Proof.
+  intros e s H. unfold preprocess. destruct (pe_redact e); [reflexivity|].
+  rewrite (only_phone_nonphone 34%N (trim (trim s))); [reflexivity| |reflexivity|discriminate].
+  apply in_trim; [|reflexivity]. apply in_trim; [exact H|reflexivity].
+Qed.
+
+(* after the parser: a literal in IMPLICIT position always becomes exactly one condition — but WHICH property and
+   operator is chosen by the value (name ~ / name = by its tokens, tel ~ for phone-like digits, a URN condition for
+   scheme:path, id = n for a number under URN redaction), by design of implicit conditions *)
+Theorem visit_implicit_one_condition : forall e v, exists pt key o v', visit_implicit e v = Cond pt key o v'.
+Proof.
+  intros e v. unfold visit_implicit.
+  destruct (pe_redact e).
+  - destruct (atoi v); eexists _, _, _, _; reflexivity.
+  - destruct (pe_urn e v) as [[sc pth]|]; [destruct (pe_valid_scheme e sc)|]; try (eexists _, _, _, _; reflexivity);
+      destruct (implicit_phone v); eexists _, _, _, _; reflexivity.
+Qed.
+
+Example implicit_value_chooses_condition :
+  visit_implicit (env_example true ascii_lower) [53%N] = Cond PAttr AttributeID OpEqual [53%N]
+  /\ visit_implicit (env_example false ascii_lower) [53%N] = Cond PAttr AttributeName OpEqual [53%N]
+  /\ visit_implicit (env_example false ascii_lower) [49; 50; 51; 52; 53]%N = Cond PURN k_tel OpContains [49; 50; 51; 52; 53]%N.
+Proof. repeat split; vm_compute; reflexivity. Qed.
